@@ -50,7 +50,7 @@ PROBES = ["event_queued_while_bytes_buffered", "two_scheduled_due", "equal_when"
           "interrupted_with_sigint_event", "interrupted_without_sigint_event", "paste_event", "paste_refilled", "char_cut_by_read",
           "threshold_none_burst_gt_read_size", "timeout_expired", "unget_ahead_of_stream", "keyboardinterrupt_torn_request",
           "threadsafe_event_woke_blocked_request", "callback_preempted_between_append_and_write", "sentinel_injected",
-          "sigwinch_wakeup", "scheduled_woke_request", "pipe_full_block", "multi_kb_burst"]
+          "sigwinch_wakeup", "scheduled_woke_request", "pipe_full_block", "multi_kb_burst", "trigger_created_mid_run"]
 TRIGGERS = {}
 
 KEYS_ASCII = [b"a", b"b", b"c", b"x", b"y", b"z", b" ", b"\n", b"\t", b"\x7f", b"\x01", b"\x04", b"1", b"Q", b"~", b"["]
@@ -166,6 +166,11 @@ def gen_plan(seed, tier, index=0, avoid=()):
             env.append({"t": t, "kind": "arrive", "data": (pre + key[:cut]).hex(), "split": True, "pair": pair, "half": 1})
             env.append({"t": round(t + rng.choice((0.0005, 0.02, 0.7)), 4), "kind": "arrive", "data": key[cut:].hex(),
                         "split": True, "pair": pair, "half": 2, "key": key.hex(), "cut": cut})
+    # some threadsafe triggers are created while the run is under way (a new pipe joins the select set)
+    late = rng.randint(0, nts) if rng.random() < 0.3 else 0
+    cfg["nts_initial"] = nts - late
+    for _ in range(late):
+        main.insert(rng.randint(0, len(main)), {"op": "mk_ts"})
     env.sort(key=lambda e: e["t"])
     if split:
         # nothing else may arrive between the two halves of a split key
@@ -772,11 +777,14 @@ def _execute(p, s, res):
     try:
         ev_cb[0] = inp.event_trigger(Ev)
         sched_cb[0] = inp.scheduled_event_trigger(SEv)
-        for k in range(cfg["nts"]):
+        def make_ts():
             fds0 = set(kernel.open_fds())
-            ts_cbs.append(inp.threadsafe_event_trigger(Ev))
+            cb = inp.threadsafe_event_trigger(Ev)
             new = sorted(set(kernel.open_fds()) - fds0)
             ts_rfds.extend(fd for fd in new if kernel.fds[fd].kind == "pr")
+            ts_cbs.append(cb)
+        for k in range(cfg.get("nts_initial", cfg["nts"])):
+            make_ts()
         for ti, steps in enumerate(p["threads"]):
             world.spawn("t%d" % ti, thread_script(ti, steps))
         aborted = False
@@ -825,6 +833,12 @@ def _execute(p, s, res):
                     sched_cb[0](when)
                     M.sched.append((when, n))
                     world.log.add("sched", when, n)
+                elif op == "mk_ts":
+                    if len(ts_cbs) < cfg["nts"]:
+                        make_ts()
+                        world.probe("trigger_created_mid_run")
+                elif op == "ts_call" and st["trig"] >= len(ts_cbs):
+                    world.log.add("ts_call_skipped_not_created", st["trig"])
                 elif op == "ts_call":
                     pipe = kernel.fds[ts_rfds[st["trig"]]].pipe
                     if pipe.cap >= 65536 and pipe.cap - len(pipe.buf) >= 19 * 8:
@@ -837,6 +851,8 @@ def _execute(p, s, res):
                     world.block_until(lambda: False, world.now + st["dt"], "sleep")
                 if res["violation"]:
                     break
+            while len(ts_cbs) < cfg["nts"]:
+                make_ts()          # (threads may be waiting for a trigger whose creation step was shrunk away)
             # ---- drain: everything that went in must come out --------------------------------
             rounds = 0
             while not res["violation"]:
